@@ -761,6 +761,7 @@ def explain_description(
     txn_date: Optional[date] = None,
     transforms: Optional[List[Tuple[str, str]]] = None,
     field: Optional[Dict[str, str]] = None,
+    data_sources: Optional[Dict[str, List[Dict]]] = None,
 ) -> dict:
     """Trace how a description is processed and matched.
 
@@ -792,6 +793,29 @@ def explain_description(
         'subcategory': None,
         'is_unknown': False,
     }
+
+    # With a .rules file loaded, ask the engine itself - exactly what normalize_merchant()
+    # does - so that the explanation is the classification 'tally up' applies: the
+    # configured rule mode, tag-only rules, merchant:, variables, let bindings and
+    # conditions that are not plain function calls.
+    if _cached_engine is not None:
+        match = _cached_engine.match(transaction, data_sources=data_sources)
+        if match.matched:
+            result['matched_rule'] = {
+                'pattern': match.matched_rule.match_expr if match.matched_rule else None,
+                'source': 'user',
+                'matched_on': 'transformed' if transformed_desc != description else 'original',
+                'tags': sorted(match.tags),
+            }
+            result['merchant'] = match.merchant
+            result['category'] = match.category
+            result['subcategory'] = match.subcategory
+            return result
+        result['is_unknown'] = True
+        result['merchant'] = extract_merchant_name(transformed_desc)
+        result['category'] = 'Unknown'
+        result['subcategory'] = 'Unknown'
+        return result
 
     # Try pattern matching against transformed description
     desc_upper = transformed_desc.upper()
